@@ -1,0 +1,98 @@
+//go:build verif
+
+package storage
+
+// Instrumentation points for runtime verification. The handlers are plain
+// package-level function variables: they must be set before any goroutine
+// that can reach them is started and never changed while one runs.
+
+var (
+	// VerifWalWrite is called before each Write on the log file. kind 0 is
+	// the record length, kind 1 the record body.
+	VerifWalWrite func(kind int, n int)
+	// VerifWalSync is called before each Sync of the log file.
+	VerifWalSync func()
+	// VerifWalDone is called when a batch has been appended completely.
+	VerifWalDone func()
+	// VerifPageWrite is called before a page is written to the data file.
+	VerifPageWrite func(off uint64)
+	// VerifHeaderWrite is called before the file header is written.
+	VerifHeaderWrite func()
+	// VerifFlushBegin / VerifFlushEnd bracket flushPages (lock held).
+	VerifFlushBegin func()
+	VerifFlushEnd   func()
+	// VerifMarkDirty is called whenever a page is marked dirty.
+	VerifMarkDirty func(off uint64, lsn uint64)
+	// VerifFetchMiss is called when a page has to be read from the file.
+	VerifFetchMiss func(off uint64)
+
+	// VerifNoAutoFlush turns the background flush timer off for stores
+	// opened afterwards.
+	VerifNoAutoFlush bool
+	// VerifCacheCap, when > 0, is the page cache capacity of stores opened
+	// afterwards.
+	VerifCacheCap int
+)
+
+func vWalWrite(kind int, n int) {
+	if VerifWalWrite != nil {
+		VerifWalWrite(kind, n)
+	}
+}
+
+func vWalSync() {
+	if VerifWalSync != nil {
+		VerifWalSync()
+	}
+}
+
+func vWalDone() {
+	if VerifWalDone != nil {
+		VerifWalDone()
+	}
+}
+
+func vPageWrite(off uint64) {
+	if VerifPageWrite != nil {
+		VerifPageWrite(off)
+	}
+}
+
+func vHeaderWrite() {
+	if VerifHeaderWrite != nil {
+		VerifHeaderWrite()
+	}
+}
+
+func vFlushBegin() {
+	if VerifFlushBegin != nil {
+		VerifFlushBegin()
+	}
+}
+
+func vFlushEnd() {
+	if VerifFlushEnd != nil {
+		VerifFlushEnd()
+	}
+}
+
+func vAutoFlush(b bool) bool {
+	if VerifNoAutoFlush {
+		return false
+	}
+	return b
+}
+
+func vCacheCap() int { return VerifCacheCap }
+
+func vMarkDirty(off uint64, lsn uint64) {
+	if VerifMarkDirty != nil {
+		VerifMarkDirty(off, lsn)
+	}
+}
+
+func vFetchMiss(off uint64) {
+	if VerifFetchMiss != nil {
+		VerifFetchMiss(off)
+	}
+}
